@@ -78,13 +78,13 @@ theorem dict_get_path (i : Image) : i.dict.get? (L "path") = some i.path := by
   unfold Image.dict
   split <;> rfl
 
-theorem pathKey_dict (i : Image) : pathKey i.dict = match i.path with | .str s => s | _ => [] := by
+theorem c8PathKey_dict (i : Image) : pathKey i.dict = match i.path with | .str s => s | _ => [] := by
   unfold pathKey
   rw [dict_get_path]
   cases i.path <;> rfl
 
 theorem Image.Same.pathKey_eq {i j : Image} (h : Image.Same i j) : pathKey i.dict = pathKey j.dict := by
-  rw [pathKey_dict, pathKey_dict]
+  rw [c8PathKey_dict, c8PathKey_dict]
   have := h.path
   revert this; generalize i.path = a; generalize j.path = b; intro hg
   cases hg <;> rfl
@@ -113,7 +113,7 @@ end
 
 def PSorted (l : List PyVal) : Prop := l.Pairwise (fun a b => pathKey a ≤ pathKey b)
 
-theorem insertByPath_sorted (d : PyVal) (l : List PyVal) (h : PSorted l) : PSorted (insertByPath d l) := by
+theorem c8InsertByPath_sorted (d : PyVal) (l : List PyVal) (h : PSorted l) : PSorted (insertByPath d l) := by
   induction l with
   | nil => simp [insertByPath, PSorted]
   | cons x xs ih =>
@@ -136,33 +136,33 @@ theorem insertByPath_sorted (d : PyVal) (l : List PyVal) (h : PSorted l) : PSort
       · exact not_lt_le hlt
       · exact hx.1 y hy
 
-theorem foldl_insert_sorted (l acc : List PyVal) (h : PSorted acc) :
+theorem c8Foldl_insert_sorted (l acc : List PyVal) (h : PSorted acc) :
     PSorted (l.foldl (fun acc d => insertByPath d acc) acc) := by
   induction l generalizing acc with
   | nil => exact h
-  | cons x xs ih => exact ih _ (insertByPath_sorted x acc h)
+  | cons x xs ih => exact ih _ (c8InsertByPath_sorted x acc h)
 
-theorem sortByPath_sorted (l : List PyVal) : PSorted (sortByPath l) :=
-  foldl_insert_sorted l [] List.Pairwise.nil
+theorem c8SortByPath_sorted (l : List PyVal) : PSorted (sortByPath l) :=
+  c8Foldl_insert_sorted l [] List.Pairwise.nil
 
 /-- what a cell holds after the filings `ds` were appended one by one (each append re-sorts) -/
-def cellFold (ds : List PyVal) (l : List PyVal) : List PyVal := ds.foldl (fun l d => sortByPath (l ++ [d])) l
+def c8CellFold (ds : List PyVal) (l : List PyVal) : List PyVal := ds.foldl (fun l d => sortByPath (l ++ [d])) l
 
-theorem cellFold_perm (ds l : List PyVal) : (cellFold ds l).Perm (l ++ ds) := by
+theorem c8CellFold_perm (ds l : List PyVal) : (c8CellFold ds l).Perm (l ++ ds) := by
   induction ds generalizing l with
-  | nil => simp [cellFold]
+  | nil => simp [c8CellFold]
   | cons d ds ih =>
-    simp only [cellFold, List.foldl_cons]
+    simp only [c8CellFold, List.foldl_cons]
     refine (ih _).trans ?_
     have := (sortByPath_perm (l ++ [d])).append_right ds
     simpa using this
 
-theorem cellFold_sorted (ds l : List PyVal) (h : PSorted l) : PSorted (cellFold ds l) := by
+theorem c8CellFold_sorted (ds l : List PyVal) (h : PSorted l) : PSorted (c8CellFold ds l) := by
   induction ds generalizing l with
   | nil => exact h
   | cons d ds ih =>
-    simp only [cellFold, List.foldl_cons]
-    exact ih _ (sortByPath_sorted _)
+    simp only [c8CellFold, List.foldl_cons]
+    exact ih _ (c8SortByPath_sorted _)
 
 /-! ### observing the output table through its cells -/
 
@@ -250,7 +250,7 @@ def cellFilings (ts : List (Str × Str × Image)) (v a : Str) : List (Str × Str
   ts.filter fun t => t.1 == v && t.2.1 == a
 
 theorem cellOf_outFold (ts : List (Str × Str × Image)) (out : OutCells) (v a : Str) :
-    cellOf (outFold ts out) v a = cellFold ((cellFilings ts v a).map (·.2.2.dict)) (cellOf out v a) := by
+    cellOf (outFold ts out) v a = c8CellFold ((cellFilings ts v a).map (·.2.2.dict)) (cellOf out v a) := by
   induction ts generalizing out with
   | nil => rfl
   | cons t rest ih =>
@@ -261,7 +261,7 @@ theorem cellOf_outFold (ts : List (Str × Str × Image)) (out : OutCells) (v a :
     simp only [cellFilings, List.filter_cons]
     by_cases h : v = tv ∧ a = ta
     · obtain ⟨rfl, rfl⟩ := h
-      simp [cellFold]
+      simp [c8CellFold]
     · have : (tv == v && ta == a) = false := by
         rw [Bool.and_eq_false_iff]
         by_cases h1 : v = tv
@@ -456,16 +456,16 @@ theorem all2_jeqL : ∀ {l l' : List PyVal}, All2 (fun a b => JEq a b ∧ pathKe
   | _, _, .cons r t => .cons r.1 (all2_jeqL t)
 
 theorem cellFold_jeqL {ds ds' : List PyVal} (hdicts : PermR (fun x y => JEq x y ∧ pathKey x = pathKey y) ds ds')
-    (hd : (ds.map pathKey).Nodup) : JEqL (cellFold ds []) (cellFold ds' []) := by
-  have p1 : (cellFold ds []).Perm ds := by simpa using cellFold_perm ds []
-  have p2 : (cellFold ds' []).Perm ds' := by simpa using cellFold_perm ds' []
-  have hR : PermR (fun x y => JEq x y ∧ pathKey x = pathKey y) (cellFold ds []) (cellFold ds' []) := by
+    (hd : (ds.map pathKey).Nodup) : JEqL (c8CellFold ds []) (c8CellFold ds' []) := by
+  have p1 : (c8CellFold ds []).Perm ds := by simpa using c8CellFold_perm ds []
+  have p2 : (c8CellFold ds' []).Perm ds' := by simpa using c8CellFold_perm ds' []
+  have hR : PermR (fun x y => JEq x y ∧ pathKey x = pathKey y) (c8CellFold ds []) (c8CellFold ds' []) := by
     obtain ⟨m, hm, ha⟩ := hdicts
     obtain ⟨m', hm', ha'⟩ := PermR.all2_perm_swap ha p2.symm
     exact ⟨m', (p1.trans hm).trans hm', ha'⟩
-  have hn : ((cellFold ds []).map pathKey).Nodup := (p1.map pathKey).nodup_iff.mpr hd
-  exact all2_jeqL (PermR.sorted_all2 pathKey (fun _ _ h => h.2) (cellFold_sorted ds [] List.Pairwise.nil)
-    (cellFold_sorted ds' [] List.Pairwise.nil) hn hR)
+  have hn : ((c8CellFold ds []).map pathKey).Nodup := (p1.map pathKey).nodup_iff.mpr hd
+  exact all2_jeqL (PermR.sorted_all2 pathKey (fun _ _ h => h.2) (c8CellFold_sorted ds [] List.Pairwise.nil)
+    (c8CellFold_sorted ds' [] List.Pairwise.nil) hn hR)
 
 /-- **the document is a function of the multiset of filings** (distinct paths per cell) -/
 theorem outFold_jeq {ts ts' : List (Str × Str × Image)} (hp : PermR FSame ts ts') (hd : DistinctPaths ts) :
